@@ -88,7 +88,7 @@ class FuncMixin:
         """coerce, additionally narrowing Optional[T] to T when the path condition excludes None."""
         vi = v.t.inner if isinstance(v.t, TOpt) else v.t
         ti = t.inner if isinstance(t, TOpt) else t
-        if isinstance(vi, TOpaque) and not isinstance(ti, TOpaque) and vi.nm in ("unk", "arith") + tuple(
+        if isinstance(vi, TOpaque) and vi != ti and vi.nm in ("unk", "arith") + tuple(
                 n for n in (vi.nm,) if n.startswith("attr_")):
             # a value of unknown type passed where the callee declares a type: some value of that type
             self.note_assumed(f"opaque value passed as {t}: treated as an arbitrary value of that type")
@@ -110,6 +110,8 @@ class FuncMixin:
                 return self.ct.parse(fdef.returns)
             except EngineError:
                 return TOpaque("unk")
+        if con is None:
+            return TOpaque("unk")      # no annotation and no contract: nothing is known about the result
         return NONE
 
     def materialise_defaults(self, st, binding, module, cls, target, fdef):
